@@ -76,3 +76,21 @@ def gen_fund(r: random.Random, profile: str = "scripted") -> Dict[str, Any]:
             "f": {"markets": markets, "corr": corr}, "fops": ops,
             "knobs": {"generation_chunk": chunk, "storage_chunk": r.choice([None, 3, 7]) if chunk else None},
             "scripted_normal": profile == "scripted"}
+
+
+def gen_moments(r: random.Random, profile: str = "moments") -> Dict[str, Any]:
+    """long stationary histories for the supplementary 7-sigma moment check (real generator)."""
+    n = r.randint(2, 4)
+    markets = [{"initial": r.choice([100.0, 300.0]), "drift": r.choice([0.0, 0.0005, -0.0005]),
+                "vol": r.choice([0.001, 0.01, 0.03])} for _ in range(n)]
+    C = gram_corr(r, n)
+    corr = [[a, b, max(-0.9, min(0.9, round(C[a][b], 4)))] for a in range(n) for b in range(a + 1, n)]
+    import numpy as np
+    M = np.eye(n)
+    for a, b, c in corr:
+        M[a, b] = M[b, a] = c
+    if np.linalg.eigvalsh(M).min() <= 0.05:
+        corr = [[0, 1, 0.5]]
+    return {"format": 1, "driver": "F", "runner_seed": r.randrange(2 ** 31), "f": {"markets": markets, "corr": corr},
+            "fops": [{"k": "advance", "n": 20000}, {"k": "moments"}], "knobs": {"generation_chunk": None, "storage_chunk": None},
+            "scripted_normal": False}
